@@ -110,7 +110,7 @@ func (k Keeper) UpdatePriceList(ctx sdk.Context, id, scriptID, rate, twaBatch ui
 			}
 			k.SetTwa(ctx, twa)
 		} else {
-			if len(twa.PriceValue) >= int(twaBatch) {
+			if uint64(len(twa.PriceValue)) >= twaBatch {
 				twa.PriceValue[twa.CurrentIndex] = rate
 				twa.IsPriceActive = true
 				twa.CurrentIndex = twa.CurrentIndex + 1
